@@ -42,6 +42,9 @@ pub enum Pattern {
     ClientIdle(u16),
     /// the same with the send window (1) taken by a QoS 1 publish the peer does not acknowledge
     ClientIdleWindowFull(u16),
+    /// client role, keep-alive k: a streamed QoS 0 publish is started, half of its payload supplied, the rest only k + 0.5 s
+    /// later (a keep-alive tick falls inside the owed payload); afterwards the connection is idle: PINGREQ expected again
+    ClientStreamThenIdle(u16),
     /// a publish handler busy for three periods with the receive limits reached (reading is paused) while the peer keeps
     /// sending a complete PINGREQ every `gap` deciseconds: the live peer is not timed out, everything is answered afterwards
     LiveBusy { gap: u8 },
@@ -118,7 +121,7 @@ async fn run_conn(c: Case) -> Verdict {
         cfg.v3.connect_timeout = 1;
         cfg.v5.connect_timeout = 1;
     }
-    if let Pattern::ClientIdle(k) | Pattern::ClientIdleWindowFull(k) = c.pattern {
+    if let Pattern::ClientIdle(k) | Pattern::ClientIdleWindowFull(k) | Pattern::ClientStreamThenIdle(k) = c.pattern {
         cfg.v3.connect.keep_alive = k;
         cfg.v5.connect.keep_alive = k;
         if matches!(c.pattern, Pattern::ClientIdleWindowFull(_)) {
@@ -350,8 +353,22 @@ async fn run_conn(c: Case) -> Verdict {
                 }
             }
         }
-        Pattern::ClientIdle(k) | Pattern::ClientIdleWindowFull(k) => {
+        Pattern::ClientIdle(k) | Pattern::ClientIdleWindowFull(k) | Pattern::ClientStreamThenIdle(k) => {
             let mut held = None;
+            if matches!(c.pattern, Pattern::ClientStreamThenIdle(_)) {
+                // a streamed publish that takes longer than one keep-alive period
+                let (_, handle) = eut.stream_start(0, "s/stream".into(), 10, None);
+                let Ok(h) = handle else { return Verdict::Fail(fail(&c, "harness-stream", format!("{handle:?}"))) };
+                let r1 = eut.stream_chunk(h, vec![1; 5]).await;
+                sleep(Duration::from_millis(u64::from(k) * 1000 + 500)).await;
+                let r2 = eut.stream_chunk(h, vec![2; 5]).await;
+                eut.settle().await;
+                if r1.is_err() || r2.is_err() || ended(&eut) {
+                    return Verdict::Fail(fail(&c, "client-stream", format!("a streamed publish of 10 bytes in two chunks {:?} apart: chunk results {r1:?} {r2:?}, ended {}: {:?}", Duration::from_millis(u64::from(k) * 1000 + 500), ended(&eut), app.stops())));
+                }
+            }
+            // the idle phase starts now
+            let t0 = Instant::now();
             if matches!(c.pattern, Pattern::ClientIdleWindowFull(_)) {
                 // the only slot of the send window stays taken: the peer never acknowledges this publish
                 let mut f = eut.send(crate::bed::v5::SendSpec { kind: crate::bed::v5::SendKind::Qos1, topic: "s/0".into(), payload: vec![1], pid: None, user_prop: None });
@@ -393,7 +410,11 @@ async fn run_conn(c: Case) -> Verdict {
                 return Verdict::Inconclusive(format!("driver slipped {max_slip:?}"));
             }
             drop(held);
-            Verdict::Ok(CaseInfo::nontrivial(&c).label(if matches!(c.pattern, Pattern::ClientIdleWindowFull(_)) { "client-keep-alive-window-full" } else { "client-keep-alive" }))
+            Verdict::Ok(CaseInfo::nontrivial(&c).label(match c.pattern {
+                Pattern::ClientIdleWindowFull(_) => "client-keep-alive-window-full",
+                Pattern::ClientStreamThenIdle(_) => "client-keep-alive-after-long-stream",
+                _ => "client-keep-alive",
+            }))
         }
         Pattern::ConnectStall => unreachable!(),
     }
@@ -437,6 +458,7 @@ pub fn all_cases(thorough: bool) -> Vec<Case> {
         for k in [1u16, 2] {
             out.push(Case { role, source: Source::Client(k), pattern: Pattern::ClientIdle(k) });
             out.push(Case { role, source: Source::Client(k), pattern: Pattern::ClientIdleWindowFull(k) });
+            out.push(Case { role, source: Source::Client(k), pattern: Pattern::ClientStreamThenIdle(k) });
         }
     }
     out
